@@ -149,3 +149,40 @@ Definition sess_spec (mid : string) (obs : list (list N * N)) : list (list N * l
 
 Definition sess_ok (mid : string) (obs : list (list N * N)) (sess : list (list N * list string)) : bool :=
   sess_eqb sess (sess_spec mid obs).
+
+(* ---- failing executed-status lookups (round 3) ----
+
+   proposalBatches asks the bridge `IsProposalExecuted` for EVERY proposal of the delivery, in order
+   (executed or not), and `if err != nil { return nil, err }`: one failing lookup and there are no
+   batches at all - Execute returns that error before anything is hashed or signed.
+   [fl] gives per position how many times the lookup of that proposal fails before it answers
+   (0 = never); the code asks once per proposal, so any non-zero entry is an error. *)
+Definition lookup_err (ps : list prop) (fl : list N) : bool :=
+  existsb (fun pf => 0 <? snd pf) (combine ps fl).
+
+Definition batches_r (cap tg : N) (ps : list prop) (fl : list N) : option (list batch) :=
+  if lookup_err ps fl then None else Some (batches cap tg ps).
+
+(* Specification with lookups that may fail.  "Pending" stays what the CHAIN says (pexec), whether or
+   not the lookup succeeded.  Either the step reports the failure and produces nothing (accepted only
+   when a lookup did fail), or what it produces is judged exactly as before: a partition of ALL
+   pending proposals. *)
+Definition spec_ok_r (cap tg : N) (ps : list prop) (fl : list N) (r : option (list (list N * N))) : bool :=
+  match r with
+  | None => lookup_err ps fl
+  | Some obs => spec_ok cap tg ps obs
+  end.
+
+(* Execute level: did Execute return an error, and the member lists handed to ProposalsHash (canonical
+   order).  Nothing hashed + error reported (with a failing lookup), or the hashed lists are
+   consecutive non-empty segments of the pending proposals with nothing left over. *)
+Definition hashed_ok_r (ps : list prop) (fl : list N) (err : bool) (hs : list (list N)) : bool :=
+  if is_nil hs then (err && lookup_err ps fl) || is_nil (pending ps)
+  else forallb (fun m => negb (is_nil m)) hs
+       && walk false 0 0 (pending ps) (map (fun m => (m, 0)) hs).
+
+Definition hashed_model (cap tg : N) (ps : list prop) (fl : list N) : list (list N) :=
+  match batches_r cap tg ps fl with
+  | None => []
+  | Some bs => map (fun ib => map pid (members (snd ib))) (signed bs)
+  end.
